@@ -32,7 +32,10 @@ RULE = ("paths = every solution of Basic/Specialized tracers in Antarctic, Green
         "do not alias. FunctionSignal inputs (interpolated samples, analytic pulse, sum of two, ZHS/AVZ/ARZ Askaryan "
         "pulses) are propagated on all four path classes, their outputs evaluated lazily after further calls, and "
         "compared with the same samples as a plain Signal on a never-used path and with the recomputation; the "
-        "input's component/filter lists must stay untouched. -log(attenuation) is compared with an independent fine midpoint quadrature of ds/L_att along the path (uniform, "
+        "input's component/filter lists must stay untouched. attenuation is called with long frequency arrays (1025..3000 entries, mixed signs) and compared element by "
+        "element with single-frequency calls; signals of 513..1500 samples are propagated un-interpolated and "
+        "compared bin by bin with a recomputation that evaluates attenuation in short pieces. "
+        "-log(attenuation) is compared with an independent fine midpoint quadrature of ds/L_att along the path (uniform, "
         "layered, direct basic/specialized). The form without polarisation (no force_real, negative frequencies looked up) is run for every "
         "interpolation step and compared with the numpy recomputation using the |f|-symmetric factor and with the "
         "s-component of the polarised form")
@@ -777,6 +780,42 @@ def check_path(run, case, idx, path, deep=False):
         if a0 < float(np.max(att)) * (1 - 1e-11):
             fail("attenuation-monotone", [0.0, a0, float(np.max(att))], "attenuation(0) >= attenuation(f)",
                  "attenuation grows with |f| from f=0")
+        # long 1-D frequency arrays: every element is the scalar evaluation, in range, non-increasing in |f|
+        gl = np.random.default_rng(case.get("vseed", 12345) + 17 * idx)
+        for ln in ((1025, 3000) if gl.random() < 0.5 else (1500, 2049)):
+            fl = np.sort(10 ** gl.uniform(6, 9.6, size=ln))
+            if gl.random() < 0.5:
+                fl[::7] *= -1          # mixed signs: only |f| matters
+            try:
+                al = np.asarray(path.attenuation(fl.copy()), dtype=float)
+            except Exception as e:      # noqa: BLE001
+                fail("crash", repr(e)[:200], "array of factors", "attenuation raised on a long frequency array",
+                     extra={"n_freqs": ln})
+                continue
+            pick = sorted(set([0, 1, 511, 512, 513, 1023, 1024, ln - 3, ln - 2, ln - 1]
+                              + [int(q) for q in gl.integers(0, ln, size=12)]))
+            pick = [q for q in pick if q < ln]
+            one = np.array([float(np.asarray(path.attenuation(np.array([fl[q]])))[0]) for q in pick])
+            run.count("attenuation_long_arrays")
+            if al.shape != (ln,):
+                fail("attenuation-array", list(al.shape), [ln], "attenuation of a long array has the wrong shape",
+                     extra={"n_freqs": ln})
+            elif not np.allclose(al[pick], one, rtol=1e-12, atol=0):
+                j = int(np.argmax(np.abs(al[pick] - one)))
+                fail("attenuation-array", [pick[j], float(al[pick[j]])], [pick[j], float(one[j])],
+                     "element of attenuation(long array) differs from attenuation of that single frequency",
+                     extra={"n_freqs": ln})
+            else:
+                o = np.argsort(np.abs(fl), kind="stable")
+                sa = al[o]
+                if not (np.all(np.isfinite(al)) and np.all(al <= 1.0) and np.all(al >= 0.0)) or \
+                        (np.any(al == 0.0) and not underflow_ok):
+                    fail("attenuation-range", [ln], "in (0,1]", "attenuation of a long array leaves (0,1]",
+                         extra={"n_freqs": ln})
+                elif np.any(sa[1:] > sa[:-1] * (1 + 1e-11) + 1e-300):
+                    j = int(np.argmax(sa[1:] > sa[:-1] * (1 + 1e-11) + 1e-300))
+                    fail("attenuation-monotone", [float(np.abs(fl[o][j])), float(sa[j]), float(sa[j + 1])],
+                         "non-increasing in |f|", "attenuation of a long array grows with |f|", extra={"n_freqs": ln})
         # path_length / max L  <=  -log(attenuation)  <=  path_length / min L  over the depths the ray visits
         for fq in (1e8, 6e8):
             bnd = exponent_bounds(path, kind, fq)
@@ -911,6 +950,12 @@ def check_path(run, case, idx, path, deep=False):
             verify_scalar(path, ctx, t0, dt, x if n != 11 or ip is None else x[:10], ip,
                           dict(extra, step="scalar", interp=ip))
         verify_scalar(path, ctx, t0, dt, np.zeros(n), interp, dict(extra, step="scalar signal=zero"))
+        # long signals (more than 512 samples, lengths that are no multiple of 512), un-interpolated: every bin of the
+        # spectrum carries gain(|f|), the trailing ones included
+        nl = int(g.choice([513, 700, 1025, 1500]))
+        xl = g.standard_normal(nl)
+        verify_propagation(path, ctx, t0, dt, xl, pol, None, dict(extra, step="long signal", N=nl, interp=None))
+        verify_scalar(path, ctx, t0, dt, xl, None, dict(extra, step="long signal scalar", N=nl, interp=None))
         # container / dtype forms of the same numbers
         if ss is not None:
             verify_forms(path, ctx, t0, dt, x, pol, interp, extra)
@@ -926,6 +971,13 @@ def check_path(run, case, idx, path, deep=False):
         check_history(run, case, idx, kind, fr, k2, fail)
 
 
+def attenuation_small_calls(path, f, chunk=97):
+    """path.attenuation evaluated in short pieces (independent of how a long array is handled internally)"""
+    f = np.asarray(f, dtype=float)
+    return np.concatenate([np.atleast_1d(np.asarray(path.attenuation(f[i:i + chunk].copy()), dtype=float))
+                           for i in range(0, len(f), chunk)]) if len(f) else np.zeros(0)
+
+
 def recompute_reference(path, kind, fr, times, x, pol):
     """numpy-only reference for the un-interpolated propagate: shift, split, attenuation*Fresnel, Hermitian filter"""
     n = len(times)
@@ -933,7 +985,7 @@ def recompute_reference(path, kind, fr, times, x, pol):
     fa = np.abs(freqs)
     if kind in ("basic", "specialized"):
         fa = np.minimum(fa, np.max(freqs))      # np.interp holds the last tabulated value at Nyquist
-    av = np.asarray(path.attenuation(fa), dtype=float)
+    av = attenuation_small_calls(path, fa)
     ed = np.asarray(path.emitted_direction, dtype=float)
     c = np.cross(ed, [0, 0, 1.0])
     u0 = c / np.linalg.norm(c) if np.linalg.norm(c) > 0 else np.array(
@@ -1025,12 +1077,12 @@ def reference_attenuation(path, kind, freqs, interp, nyquist_held=False):
     between the lowest positive and the highest frequency (0 added), constant beyond the grid"""
     fa = np.abs(freqs)
     if kind in ("uniform", "layered"):
-        return np.asarray(path.attenuation(fa), dtype=float)
+        return attenuation_small_calls(path, fa)
     fmax = float(np.max(freqs))
     if interp is None:
         # (the polarised form looks |f| up in a table that ends at the highest positive frequency, so the Nyquist
         #  bin holds that last value; the scalar form finds -f_Nyquist in the table)
-        return np.asarray(path.attenuation(np.minimum(fa, fmax) if nyquist_held else fa), dtype=float)
+        return attenuation_small_calls(path, np.minimum(fa, fmax) if nyquist_held else fa)
     fmin = float(np.min(freqs[freqs > 0]))
     lmin, lmax = np.log10(fmin), np.log10(fmax)
     ns = int((lmax - lmin) / interp)
@@ -1098,7 +1150,7 @@ def verify_scalar(path, ctx, t0, dt, x, interp, extra, fresh=None):
 
 def verify_forms(path, ctx, t0, dt, x, pol, interp, extra):
     """the same samples / times / polarisation handed over as lists, tuples, float32 or integer arrays must give
-    the same outputs as float64 arrays; integer TIME grids are known finding K18"""
+    the same outputs as float64 arrays; integer TIME grids are known finding F22"""
     rt, im, ps, li = mods()
     kind, fr, fail = ctx["kind"], ctx["fr"], ctx["fail"]
     n = len(x)
@@ -1140,8 +1192,8 @@ def verify_forms(path, ctx, t0, dt, x, pol, interp, extra):
     except Exception as e:      # noqa: BLE001
         if type(e).__name__ == "UFuncTypeError" or "Cannot cast ufunc" in str(e):
             fail("crash", repr(e)[:200], "two signals",
-                 "K18: propagate of a signal with an integer-dtype times array raises (Signal.shift adds tof in place)",
-                 key="K18", extra=ex)
+                 "F22: propagate of a signal with an integer-dtype times array raises (Signal.shift adds tof in place)",
+                 key="F22", extra=ex)
         else:
             fail("crash", repr(e)[:200], "two signals", "propagate raised on an integer time grid", extra=ex)
 
@@ -1423,7 +1475,7 @@ def known_probes(run):
 
 
 def k18_probe(run):
-    """K18: propagate of Signal(range(8), ...) raises UFuncTypeError (in-place `times += tof` on an int64 array)"""
+    """F22: propagate of Signal(range(8), ...) raises UFuncTypeError (in-place `times += tof` on an int64 array)"""
     rt, im, ps, li = mods()
     paths, _ = make_paths({"tracer": "specialized", "ice": {"kind": "antarctic"}, "from": [0, 0, -600],
                            "to": [300, 40, -50]})
@@ -1431,11 +1483,11 @@ def k18_probe(run):
         return
     try:
         paths[0].propagate(ps.Signal(range(8), [1, 0, 0, 0, 0, 0, 0, .5]), (0, 0, 1))
-        run.notes.append("K18 probe: an integer time grid is propagated without error now")
+        run.notes.append("F22 probe: an integer time grid is propagated without error now")
     except Exception as e:      # noqa: BLE001
-        run.case({"probe": "K18"}, sample={"probe": "K18", "raised": repr(e)[:120]})
+        run.case({"probe": "F22"}, sample={"probe": "F22", "raised": repr(e)[:120]})
         if type(e).__name__ == "UFuncTypeError" or "Cannot cast ufunc" in str(e):
-            run.known_finding("K18")
+            run.known_finding("F22")
 
 
 def replay(run, data):
